@@ -13,6 +13,7 @@ RULE = (
     "mesh from {Device.make_mesh of a generated device (holes, unions, smoothing), perturbed structured grid, Delaunay of generated "
     "points, annulus}, optionally with generated positive areas / dual lengths; generated link exponents and site/edge/boundary "
     "fields; non-trivial = >= 20 sites with at least one interior site; distinct by spec hash"
+    "; optional history: smoothed copy requested and original used; every builder result rescaled in place and built again"
 )
 ASSUMPTIONS = [
     "meshes with a non-positive or non-finite Voronoi cell area are outside the quantifier ('all positive cell areas') and are discarded, counted",
